@@ -1,6 +1,7 @@
 package main
 
 import (
+	"os"
 	"fmt"
 	"go/constant"
 	"go/types"
@@ -122,7 +123,11 @@ func (g *Gen) verifyFunc(fc *FuncContract) (vc *VC) {
 		fr.free = append(fr.free, v)
 		if sc := pkgOfFn(fn); sc != nil {
 			if inner := sc.Scope().Innermost(fn.Pos()); inner != nil {
-				if _, o := inner.LookupParent(fv.Name(), fn.Pos()); o != nil {
+				_, o := inner.LookupParent(fv.Name(), fn.Pos())
+				if os.Getenv("GOVC_DEBUG") != "" {
+					fmt.Fprintf(os.Stderr, "free var %s: fnpos %v obj %v\n", fv.Name(), g.prog.Fset.Position(fn.Pos()), o)
+				}
+				if o != nil {
 					st.src[o] = v
 					st.srcAddr[o] = true
 				}
@@ -197,6 +202,13 @@ func (g *Gen) verifyFunc(fc *FuncContract) (vc *VC) {
 			g.addObligation(&Obligation{Name: fmt.Sprintf("%s.call[%s %q].binding.%s", fc.Key, cl.Anchor, cl.Arg, cl.Name), Func: fc.Key, Kind: "binding", Props: cl.Props,
 				Guard: "true", Goal: "false", Static: true, Status: "undischarged", Src: cl.Src,
 				Output: "no call site matches this clause (the call was removed, renamed or moved out of the function)", Pos: fmt.Sprintf("%s:%d", cl.File, cl.Line)})
+		}
+	}
+	for _, cl := range fc.CallInvs {
+		if !g.seenCall[cl] {
+			g.addObligation(&Obligation{Name: fmt.Sprintf("%s.call[%s].binding.%s", fc.Key, cl.Anchor, cl.Name), Func: fc.Key, Kind: "binding", Props: cl.Props,
+				Guard: "true", Goal: "false", Static: true, Status: "undischarged", Src: cl.Src,
+				Output: "no call to a callee with an invoke* step matches this invariant", Pos: fmt.Sprintf("%s:%d", cl.File, cl.Line)})
 		}
 	}
 	for _, inv := range fc.Invs {
@@ -359,6 +371,8 @@ func (g *Gen) applyPkgInit(fr *Frame, st *State, fn *ssa.Function) {
 	}
 	g.computeGlobalStability()
 	saveObls, saveNotes := len(g.vc.obls), len(g.vc.notes)
+	saveSrc, saveSrcAddr := st.src, st.srcAddr // bindings of the function's own parameters and captured variables
+	st.src, st.srcAddr = map[types.Object]Val{}, map[types.Object]bool{}
 	g.dry++
 	g.inInit = true
 	func() {
@@ -390,8 +404,8 @@ func (g *Gen) applyPkgInit(fr *Frame, st *State, fn *ssa.Function) {
 			}
 		}
 	}
-	st.src = map[types.Object]Val{}
-	st.srcAddr = map[types.Object]bool{}
+	st.src = saveSrc
+	st.srcAddr = saveSrcAddr
 	g.vc.note("assumed", "package-level variables of "+top.Pkg.Pkg.Name()+" that are never assigned outside the package initializer keep their initial values")
 }
 
